@@ -1232,6 +1232,38 @@ fn run_c13(out: &mut Out, rng: &mut Rng, work: &str) -> BTreeMap<String, u64> {
 		Some(id) if g.kit.blks[id].valid => Some(id),
 		_ => None,
 	};
+	// ---- a long, heavy fork off height 1 whose blocks carry many outputs, announced by its headers
+	// only (subject s3): at every height its headers commit to a larger output MMR than the trunk
+	let mut fat: Vec<usize> = vec![];
+	{
+		let mut f = trunk[1];
+		let mut fan_src: Option<usize> = Some(0);
+		for h in 2..=10u64 {
+			let mut specs = vec![];
+			if h >= 3 {
+				if let Some(o) = fan_src {
+					let v = g.kit.outs[o].value;
+					if v > 100 {
+						let part = (v - 2) / 8;
+						let mut outs: Vec<(u64, Option<usize>)> = (0..7).map(|_| (part, None)).collect();
+						outs.push((v - 2 - 7 * part, None));
+						specs.push(TxSpec { inputs: vec![o], outputs: outs, kernel: KSpec::Plain(2) });
+					}
+				}
+			}
+			let before = g.kit.outs.len();
+			match g.add_scripted(f, if h == 2 { 600 } else { 1 }, &specs, "fork:fat-long") {
+				Some(id) if g.kit.blks[id].valid => {
+					fat.push(id);
+					f = id;
+					if let Some(o) = (before..g.kit.outs.len()).find(|o| !g.kit.outs[*o].coinbase) {
+						fan_src = Some(o);
+					}
+				}
+				_ => break,
+			}
+		}
+	}
 	// transactions for the pool-facing checks (built once, evaluated at every head)
 	let mut probes: Vec<(String, grin_core::core::Transaction)> = vec![];
 	for c in [1usize, 3, 6, 9, 11] {
@@ -1259,10 +1291,10 @@ fn run_c13(out: &mut Out, rng: &mut Rng, work: &str) -> BTreeMap<String, u64> {
 	g.describe_new(out);
 	let all: Vec<usize> = (1..g.kit.blks.len()).collect();
 	let kit = &g.kit;
-	let all: Vec<usize> = all.into_iter().filter(|i| Some(*i) != heavy_short).collect();
-	for si in 0..3 {
+	let all: Vec<usize> = all.into_iter().filter(|i| Some(*i) != heavy_short && !fat.contains(i)).collect();
+	for si in 0..4 {
 		let name = format!("s{}", si);
-		let order: Vec<usize> = if si == 0 || si == 2 {
+		let order: Vec<usize> = if si == 0 || si >= 2 {
 			all.clone()
 		} else {
 			// parents first, otherwise random
@@ -1288,6 +1320,15 @@ fn run_c13(out: &mut Out, rng: &mut Rng, work: &str) -> BTreeMap<String, u64> {
 		out.raw(&format!("chain new {}", name));
 		let mut announced = false;
 		for i in order {
+			if si == 3 && !announced && kit.blks[i].height >= 5 {
+				// s3: the fat fork is known by its headers only from here on
+				announced = true;
+				for x in &fat {
+					let r = subj.deliver_header(&kit.blks[*x].block.header);
+					out.line(&format!("chain hdr {} b{}", name, x), &r);
+				}
+				out.line(&format!("chain obs {}", name), &subj.obs(kit));
+			}
 			if si == 2 && !announced && kit.blks[i].height >= 5 {
 				// s2: the heavy short fork is known by its header only from here on
 				announced = true;
@@ -1376,7 +1417,13 @@ fn run_c13(out: &mut Out, rng: &mut Rng, work: &str) -> BTreeMap<String, u64> {
 				}
 			}
 		}
-		if si != 2 {
+		if si == 3 {
+			for x in &fat {
+				let r = subj.deliver_block(&kit.blks[*x].block);
+				out.line(&format!("chain deliver {} b{}", name, x), &r);
+				out.line(&format!("chain obs {}", name), &subj.obs(kit));
+			}
+		} else if si != 2 {
 			if let Some(x) = heavy_short {
 				// the heavy fork's body arrives last everywhere: every subject reorganises onto it
 				let r = subj.deliver_block(&kit.blks[x].block);
